@@ -209,7 +209,10 @@ def do_solve(p, fmt):
     st = p.status
     val = None
     if st == 'optimal':
-        val = float(p.objective.value()[0])
+        try:
+            val = float(p.objective.value()[0])
+        except Exception:       # e.g. a variable of the objective got no value: compared as NaN (never within tolerance)
+            val = float('nan')
     return ('status', st, val)
 
 
@@ -495,7 +498,7 @@ def run(case):
     from mc import cvx
     from cvxopt import solvers
     solvers.options['show_progress'] = False
-    solvers.options['abstol'] = 1e-8       # tighter than the defaults (1e-7 / 1e-6) so that values can be compared to 1e-6
+    solvers.options['abstol'] = 1e-8        # tighter than the defaults (1e-7 / 1e-6) so that values can be compared to 1e-6
     solvers.options['reltol'] = 1e-8
     stats = {'outcomes': {}, 'maxerr': 0.0, 'nontrivial': 0}
     init = (('init', case['init']),)
